@@ -24,7 +24,8 @@ RULE = ("IOS ACEs with eq / neq x 1..10 distinct operands on the source and/or d
         "non-trivial = (level, src operator, #src, dst operator, #dst, position class, grouped)"
         " Round 4: repeated operands at ACE level, port 0 inside lists."
         " Round 5: entries sharing one uuid; multi-port entries added through the list API to a grouped ACL."
-        " Rounds 6-7: same text with other members split in one process; hand-made blocks.")
+        " Rounds 6-7: same text with other members split in one process; hand-made blocks."
+        " Round 9: switches set on a sub-object only before the split.")
 ASSUMPTIONS = ["known finding neq-multiport-split (pinned by the repository's tests) is classified by mechanism: the original "
                "operator on a side is neq with >= 2 operands"]
 
